@@ -2,6 +2,7 @@ package dsig
 
 import (
 	"encoding/json"
+	"errors"
 	"fmt"
 
 	"github.com/go-jose/go-jose/v4"
@@ -142,6 +143,9 @@ func (s *Signature) String() string {
 // Verify will ensure that the provided key was used to sign the
 // signature and will provide the raw data that was signed.
 func (s *Signature) Verify(key *PublicKey) ([]byte, error) {
+	if s == nil || s.jws == nil || key == nil {
+		return nil, ErrKeyMismatch
+	}
 	data, err := s.jws.Verify(key.jwk)
 	if err != nil {
 		// at the risk of hiding useful errors, provide our own
@@ -166,6 +170,9 @@ func (s *Signature) VerifyPayload(key *PublicKey, payload any) error {
 // Unsafe provides the raw data that was signed, but will not check
 // any of the signatures.
 func (s *Signature) Unsafe() []byte {
+	if s == nil || s.jws == nil {
+		return nil
+	}
 	return s.jws.UnsafePayloadWithoutVerification()
 }
 
@@ -203,7 +210,7 @@ func (s *Signature) UnmarshalJSON(data []byte) error {
 		return fmt.Errorf("dsig: %w", err)
 	}
 	if len(str) == 0 {
-		return nil
+		return errors.New("dsig: empty signature")
 	}
 	return s.parse(str)
 }
